@@ -74,3 +74,8 @@ CHECKS['C15'] = dict(
     text='8k histories per quick run (200k thorough) of mapping set/delete, @namespace insert/delete, prefix change, namespaced rule add (text/object), selector edits, moves between sheets and detach/edit/re-attach in both error modes; five literal scenarios for repaired and listed defects. Exploration.',
     note='Trusted: invariant code; selector meaning read from Selector.seq tuples; default-namespace URI changes and moves needing an undeclared namespace are excluded (findings F15-1/2).',
 )
+CHECKS['C11'] = dict(
+    technique='exhaustive enumeration of a (mutator x rejected argument x prior state) table plus property-based variation of the prior state by accepted edits (Hypothesis), with a before/after snapshot oracle and a differential follow-up operation against an untouched copy',
+    text='45 public mutators x up to 8 arguments rejected immediately / late / in a nested object x 3 prior states (all enumerated) and 1.5k cases after random accepted edits per quick run; 41 read-only (class, mutator) pairs enumerated. Snapshot of sheet, rules, properties, selectors, media, namespace mapping and its object identity must be equal after a DOMException; a valid follow-up must behave as on a fresh copy. Finite table exhaustive, state variation exploration.',
+    note='Trusted: snapshot code; only calls that raise DOMException are in scope (accepted arguments are tallied); table of arguments is hand-written from the grammar.',
+)
